@@ -650,7 +650,7 @@ def moore_cases(draw, tier):
         # structured Hermitian matrices written down entry by entry (exact zeros in the pattern: arrow, banded, block
         # diagonal, isolated zero entries, sparse); the oracle spectrum comes from the harness's own eigvalsh
         H = gen.make_hermitian(draw(gen.qarray(n, n, draw(st.sampled_from(["int", "units", "sparse", "generic"]))))[0])
-        style = draw(st.sampled_from(["arrow", "banded", "mask", "zero_10", "block"]))
+        style = draw(st.sampled_from(["arrow", "banded", "mask", "zero_10", "block", "hollow", "hollow"]))
         keep = np.ones((n, n), dtype=bool)
         if style == "arrow":
             piv = draw(st.integers(0, n - 1))
@@ -669,6 +669,11 @@ def moore_cases(draw, tier):
             c = draw(st.integers(1, n - 1))
             keep[c:, :c] = keep[:c, c:] = False
         np.fill_diagonal(keep, True)
+        if style == "hollow":
+            # zero diagonal (all of it, or its first entries): pivots of an unpivoted recurrence vanish exactly
+            hz = draw(st.integers(1, n))
+            for i in range(hz):
+                keep[i, i] = False
         H = H * keep[:, :, None]
         H = H * 10.0 ** e
         lam = ref.eigvalsh(H)
